@@ -400,6 +400,7 @@ type node struct {
 	hist   []string // human-readable history of this node (replay)
 	sizeOv int      // producer-count override in force (0 = none)
 	events int
+	quiet  bool // no per-node history (exploration: the schedule log replays the case)
 	prpsdAtRaise int // number of proposed-LIB entries when the LIB last advanced
 	reorgSinceRaise bool // a permitted reorganisation happened since the LIB last advanced
 	taint  string // class of a tagged failure whose consequences later failures on this node are
@@ -468,7 +469,7 @@ func (n *node) declare(b *sblk) {
 }
 
 func (n *node) logf(f string, a ...interface{}) {
-	if len(n.hist) < 400 {
+	if !n.quiet && len(n.hist) < 400 {
 		n.hist = append(n.hist, fmt.Sprintf(f, a...))
 	}
 }
@@ -594,8 +595,10 @@ func (n *node) arrive(b *sblk) int {
 		n.best = b
 		res = arrReorg
 	}
-	n.logf("recv %s(no=%d bp=%s c=%d prev=%s): %s -> best=%s LIB=%s", b.name, b.no, w.prods[b.bp].name, b.confirms, b.prev.name,
-		[]string{"known", "orphan", "rejected", "main", "side", "reorg", "reorg-vetoed"}[res], n.best.name, w.showBI(n.dump().Lib))
+	if !n.quiet {
+		n.logf("recv %s(no=%d bp=%s c=%d prev=%s): %s -> best=%s LIB=%s", b.name, b.no, w.prods[b.bp].name, b.confirms, b.prev.name,
+			[]string{"known", "orphan", "rejected", "main", "side", "reorg", "reorg-vetoed"}[res], n.best.name, w.showBI(n.dump().Lib))
+	}
 	if debugDumps {
 		n.logf("      %s", w.showLS(n.dump()))
 	}
